@@ -60,3 +60,15 @@ Fixpoint since_last (is_poll : rop -> bool) (h : list rop) (acc : list rop) : li
   | o :: rest => if is_poll o then since_last is_poll rest [] else since_last is_poll rest (acc ++ [o])
   end.
 
+
+(** ** C16: the value is a function of the capture window only *)
+
+(** corrected average of a window [W] (the oldest [cap - discard] samples of it) *)
+Definition window_value (r : ribbon) (W : list f32) : f32 :=
+  let k := Z.of_nat (rb_cap r) - rb_discard r in
+  let mean := fdiv (fsum (firstn (Z.to_nat k) W)) (of_Z k) in
+  fsub mean (error_estimate r mean).
+
+(** the capture window of a history: the last [cap] samples of the current run *)
+Definition window (r : ribbon) (samples : list f32) : list f32 :=
+  lastn (rb_cap r) (current_run (in_range r) samples).
